@@ -110,6 +110,8 @@ def check_fit_3d(ctx):
 def run(ctx):
     check_readers(ctx)
     check_fit_3d(ctx)
+    from . import c01
+    c01.check_filter_dicts(ctx)      # the angle the readers multiply by the distance
 
 
 MO = 'sedfitter/models.py'
